@@ -15,7 +15,7 @@ META = {
     'required_obs': {'quick': ['code-' + c for c in CODES] + ['uvari-width-1', 'uvari-width-2', 'uvari-width-4',
                                'rejected-out-of-range', 'rejected-non-ascii', 'rejected-too-long', 'cache-collision-pair',
                                'e2e-contract-evals', 'obname-copy>0', 'obname-origin-2byte', 'obname-after-identity-change', 'dtime-utc-year-differs', 'numpy-scalar-zero-pair', 'list-with-unrepresentable-element',
-                               'list-round-trip', 'dtime-fold-pair', 'dtime-naive-after-zone-change']},
+                               'list-round-trip', 'dtime-fold-pair', 'dtime-naive-after-zone-change', 'dtime-through-attributes', 'dtime-attr-objects-compared']},
     'exhaustive_windows': {'quick': ['UVARI: every value 0..20000 and 2^30-3..2^30+3', 'USHORT/SSHORT: whole domain +-2',
                                      'IDENT lengths 0..260', 'STATUS -2..3'],
                            'thorough': ['UVARI: every value 0..70000', 'UNORM/SNORM whole domain +-2', 'IDENT/ASCII lengths 0..300']},
@@ -54,6 +54,10 @@ def cases(tier, seed):
     # inferred code cannot represent
     for k in range(40 if tier == 'quick' else 800):
         yield {'stratum': 'attribute-value-lists', 'index': k, 'kind': 'lists'}
+    # date-times reached through attributes (the converter of the attribute lies between the user's value and the encoder):
+    # aware / naive, the second occurrence of a repeated wall-clock time, under several local zones of the process
+    for k in range(24 if tier == 'quick' else 500):
+        yield {'stratum': 'dtime-through-attributes', 'index': k, 'kind': 'dtime-attr'}
 
 
 def run_case(case):
@@ -182,6 +186,48 @@ def run_case(case):
             judge('STATUS', v, rp66.enc_status(int(v)), real('STATUS', v), 'valid')
         for v in [-2, -1, 2, 3, 255, 256]:
             judge('STATUS', v, None, real('STATUS', v), 'out-of-range')
+    elif k == 'dtime-attr':
+        import os
+        import time as _time
+        from vf import oracle
+        r = gen.rng(seed, PROP, case['stratum'], case['index'])
+        tz = ['UTC', 'IST-5:30', 'EST5EDT,M3.2.0,M11.1.0', 'NZST-12NZDT,M9.5.0,M4.1.0/3'][case['index'] % 4]
+        old_tz = os.environ.get('TZ')
+        os.environ['TZ'] = tz
+        _time.tzset()
+        try:
+            sp = gen.minimal(8192)
+            for o in sp['ops']:
+                if o['op'] == 'origin':
+                    o['attrs']['creation_time'] = gen.gen_dt(r)
+            forced = [{'$dt': [2021, 11, 7, 1, 30, 0, 0], 'tz': None, 'fold': 1}, {'$dt': [2021, 4, 4, 2, 30, 0, 0], 'tz': None, 'fold': 1},
+                      {'$dt': [2024, 6, 1, 12, 0, 0, 0], 'tz': 'RH', 'fold': 1}, {'$dt': [2024, 6, 1, 12, 0, 0, 0], 'tz': 'RH', 'fold': 0}]
+            for j in range(4):
+                sp['ops'].append({'op': 'zone', 'name': f'Z{j}', 'attrs': {'domain': 'TIME', 'minimum': forced[j] if j < 2 or r.random() < 0.5 else gen.gen_dt(r),
+                                                                               'maximum': forced[j] if j >= 2 else gen.gen_dt(r)}})
+            sp['ops'].append({'op': 'message', 'name': 'M', 'attrs': {'time': gen.gen_dt(r), 'text': ['t']}})
+            sp['write'] = {'output_chunk_size': 2 ** 16}
+            run = harness.execute(sp, want_taps=False)
+            evals[0] += 1
+            bump('dtime-through-attributes')
+            bump('dtime-attr-tz-' + tz.split(',')[0])
+            if run.data is None:
+                bump('dtime-attr-write-raised:' + run.wout[1])
+            else:
+                oracle.decode(run)
+                oracle.check_c05(run)
+                bump('dtime-attr-objects-compared', run.obs.get('object-compared', 0))
+                sigs.add(f'DTIME:attr:{tz.split(",")[0]}')
+                for v in run.by_prop('C05'):
+                    if 'DTIME' in v.mech or ':dt' in v.mech:
+                        vio.append({'prop': PROP, 'kind': 'encoding-mismatch', 'mech': 'mismatch:DTIME:through-attribute',
+                                    'detail': f'TZ={tz}: {v.detail}'})
+        finally:
+            if old_tz is None:
+                os.environ.pop('TZ', None)
+            else:
+                os.environ['TZ'] = old_tz
+            _time.tzset()
     elif k == 'dtime':
         r = gen.rng(seed, PROP, case['stratum'], case['index'])
         for j in range(case['n']):
